@@ -335,6 +335,11 @@ pub fn alphabet(isa: &Isa, l: &Layout) -> Vec<Sym> {
     extra(&mut out, "MOV.B Rs,@ERd", Fields { rs: 0xe, ra: 2, ..base }, "(R6L -> @ER2: operand rewrite)", true);
     extra(&mut out, "INC.L #1,ERd", Fields { rd: 2, ..base }, "(ER2)", false);
     extra(&mut out, "DEC.L #1,ERd", Fields { rd: 2, ..base }, "(ER2)", false);
+    // ---- guest stores into the bus-controller registers (the settings change in the middle of a sequence)
+    for (rname, ra) in [("ABWCR", 0xfee020u32), ("ASTCR", 0xfee021), ("WCRH", 0xfee022), ("WCRL", 0xfee023), ("DRCRA", 0xfee026)] {
+        extra(&mut out, "MOV.B Rs,@aa:24", Fields { rs: 8, data: ra, ..base }, &format!("(R0L -> {})", rname), rname == "DRCRA" || rname == "ASTCR");
+        extra(&mut out, "MOV.B Rs,@aa:24", Fields { rs: 0xe, data: ra, ..base }, &format!("(R6L -> {})", rname), rname == "WCRL");
+    }
     // ---- environment events
     out.push(Sym { name: "request 36".into(), what: What::Req(36), owners: vec![], core: true });
     out.push(Sym { name: "request 37".into(), what: What::Req(37), owners: vec![], core: false });
@@ -432,6 +437,7 @@ pub fn units(prop: &'static str, tier: Tier) -> Vec<Unit> {
         units.push(Unit::new(&format!("xseq/{}", l.name), ns, &dom, move |ctx, chunk| {
             ctx.track_queue = true;
             ctx.cycles_only = prop == "C20";
+            ctx.closed_form_cost = prop == "C20";
             let init = init_case(&l2);
             let a = &sigma2[chunk as usize];
             if chunk == 0 {
@@ -454,6 +460,7 @@ pub fn units(prop: &'static str, tier: Tier) -> Vec<Unit> {
             }
             ctx.track_queue = false;
             ctx.cycles_only = false;
+            ctx.closed_form_cost = false;
         }));
         // ---- depth 4 over the core alphabet (thorough)
         if tier == Tier::Thorough {
@@ -466,6 +473,7 @@ pub fn units(prop: &'static str, tier: Tier) -> Vec<Unit> {
             units.push(Unit::new(&format!("xseq4/{}", l.name), nc * nc, &dom, move |ctx, chunk| {
                 ctx.track_queue = true;
                 ctx.cycles_only = prop == "C20";
+                ctx.closed_form_cost = prop == "C20";
                 let init = init_case(&l3);
                 let a = &sigma3[core[(chunk / nc) as usize]];
                 let b = &sigma3[core[(chunk % nc) as usize]];
@@ -476,6 +484,7 @@ pub fn units(prop: &'static str, tier: Tier) -> Vec<Unit> {
                 }
                 ctx.track_queue = false;
                 ctx.cycles_only = false;
+                ctx.closed_form_cost = false;
             }));
         }
     }
